@@ -142,6 +142,20 @@ def check_circuit(ctx, cirq, rng, circuit, qids, mode):
     ctx.count('entry', 'Circuit.unitary')
     if not vec_close(u, expected_u, 1e-7):
         report('Circuit.unitary', '-', u, expected_u)
+    # the same through the protocol, on the frozen circuit (qubits in sorted order); what a call returns belongs to the caller: writing into
+    # it must not change what the next call returns
+    if list(order) == sorted(circuit.all_qubits()) and len(order) <= 4:
+        frozen = circuit.freeze()
+        for attempt in ('first', 'after the caller wrote into the first result'):
+            uf = cirq.unitary(frozen, None)
+            ctx.count('entry', 'cirq.unitary(FrozenCircuit)')
+            if uf is None or not vec_close(uf, expected_u, 1e-7):
+                report('cirq.unitary(FrozenCircuit)', attempt, np.zeros(1) if uf is None else uf, expected_u)
+                break
+            try:
+                uf[...] = 7.0
+            except ValueError:
+                break  # a read-only result cannot be corrupted either
     for (name, init_arg, vec), out in zip(entries, outs[:-1]):
         states = [np.array([common.j2c(z) for z in st]) for st in out['states']]
         if not states:
